@@ -210,13 +210,12 @@ func (g *PG) Node(depth int) Node {
 			g.budget--
 			// decide the loop shape first so that declarations are suppressed under unrolled loops
 			probe := g.loopOf(nil)
-			// vore emits the body Min times (declarations would clash) and not at all when Max is 0
-			// (declarations would be missing): no captures / subroutine definitions in either case
-			if probe.Min > 0 || probe.Max == 0 {
+			// vore emits no code at all for a loop whose Max is 0: declarations inside would be missing
+			if probe.Max == 0 {
 				g.noDecl++
 			}
 			body := g.Node(depth - 1)
-			if probe.Min > 0 || probe.Max == 0 {
+			if probe.Max == 0 {
 				g.noDecl--
 			}
 			probe.Body = body
